@@ -634,20 +634,34 @@ class World:
                 self.stats.probes["suffix_id_assigned"] += 1
             return
         known = self.ideal_id.get(k)
+        # is a registered node with the same class / content / children but ANOTHER origin of the same fqn around?
+        fqn_twin = None
+        for x in self.last_reach:
+            ix = self.info.get(id(x))
+            if ix is None or ix.ref() is not x or not ix.reg or x is o or cname(x) != cname(o):
+                continue
+            if ix.okey != self.inf(o).okey and x.origin.fqn == o.origin.fqn and self.key(x) == self.key(o) and [
+                (f, i, self.key(c), c.origin.fqn) for f, i, c in children_of(x)
+            ] == [(f, i, self.key(c), c.origin.fqn) for f, i, c in children_of(o)]:
+                fqn_twin = ix
+                break
+        if fqn_twin is None and any(
+            c.origin.fqn == d.fqn and origin_key(c.origin) != origin_key(d)
+            for _f, _i, c in children_of(o)
+            for d in (U.ORIGINS[k2] for k2 in U.EXTRA_ORIGIN_KEYS + ["g:a", "c:a:0-5"])
+        ):
+            # a direct child carries an origin that shares its fqn with another origin: its parent's id cannot tell
+            return
         if known is None:
-            self.ideal_id[k] = o.id
+            if fqn_twin is None:
+                self.ideal_id[k] = o.id
         elif known != o.id and self.on("C03"):
-            # is a registered node with the same class / content / children but ANOTHER origin of the same fqn around?
-            for x in self.last_reach:
-                ix = self.info.get(id(x))
-                if ix is None or ix.ref() is not x or not ix.reg or x is o or cname(x) != cname(o):
-                    continue
-                if ix.okey != self.inf(o).okey and x.origin.fqn == o.origin.fqn and self.key(x) == self.key(o):
-                    raise self.viol(
-                        "C03.8 id-not-deterministic",
-                        "C03.8:origins-share-fqn",
-                        f"a {cname(o)} with origin {self.inf(o).okey} got id {o.id} (earlier {known}) because a node with the other origin {ix.okey} of the same fqn is registered",
-                    )
+            if fqn_twin is not None:
+                raise self.viol(
+                    "C03.8 id-not-deterministic",
+                    "C03.8:origins-share-fqn",
+                    f"a {cname(o)} with origin {self.inf(o).okey} got id {o.id} (earlier {known}) because a node with the other origin {fqn_twin.okey} of the same fqn is registered",
+                )
             raise self.viol(
                 "C03.8 id-not-deterministic",
                 "C03.8",
@@ -1107,12 +1121,86 @@ class Gen:
         return s
 
     # -- op choice
+    def start_script(self, actor: str) -> None:
+        """A persister's multi-step script, other actors' ops interleave in its gaps: serialize a node whose id carries
+        a collision suffix, lose every twin (crash), read it back, then update it functionally."""
+        w = self.w
+        r = self.r("script")
+        cands = [n for n, h in w.handles.items() if h.kind == "node" and _SUFFIX.match(h.obj.id) and w.inf(h.obj).reg and len(walk(h.obj)) <= 8 and cname(h.obj) in U.CLS]
+        if not cands:
+            # make one: a twin of some small registered tree
+            base = [n for n, h in w.handles.items() if h.kind == "node" and w.inf(h.obj).reg and len(walk(h.obj)) <= 6 and cname(h.obj) in U.CLS]
+            if not base:
+                return
+            b = r.choice(base)
+            out = self.out()
+            self.script = [lambda a, b=b, out=out: {"op": "construct", "spec": spec_of(w.handles[b].obj), "out": out, "twin_of": b} if b in w.handles else None]
+            self.script_target = out
+        else:
+            self.script = []
+            self.script_target = r.choice(cands)
+        fmt = r.choice(self.cfg["formats"])
+
+        def ser(a: str) -> dict[str, Any] | None:
+            t = self.script_target
+            if t not in w.handles or w.handles[t].kind != "node":
+                self.script = []
+                return None
+            self.script_payload = self.out()
+            return {"op": "ser", "n": {"h": t, "path": []}, "fmt": fmt, "opts": None, "out": self.script_payload}
+
+        def crash(a: str) -> dict[str, Any] | None:
+            t = self.script_target
+            if t not in w.handles:
+                return None
+            k = w.idkey(w.handles[t].obj)
+            twins = [n for n, h in w.handles.items() if h.kind == "node" and cname(h.obj) in U.CLS and w.idkey(h.obj) == k]
+            if len(twins) > 1:
+                self.script.insert(0, crash)  # one drop per step until every twin is gone
+            return {"op": "drop", "h": twins[0]} if twins else None
+
+        def deser(a: str) -> dict[str, Any] | None:
+            p = getattr(self, "script_payload", None)
+            if p not in w.handles:
+                self.script = []
+                return None
+            self.script_result = self.out()
+            return {"op": "deser", "p": p, "entry": r.choice(["ASTNode", "cls"]), "out": self.script_result}
+
+        def update(a: str) -> dict[str, Any] | None:
+            t = getattr(self, "script_result", None)
+            if t not in w.handles or w.handles[t].kind != "node":
+                return None
+            o = w.handles[t].obj
+            cls = cname(o)
+            if cls == "Meta":
+                ch = {"note": {"v": self.value("str")}}
+            else:
+                fs = [f for f in U.PROP_FIELDS[cls] if f.init and f.compare and f.vt in ("str", "int")]
+                if not fs:
+                    return None
+                f = r.choice(fs)
+                ch = {f.name: {"v": U.encode(f.vt, getattr(o, f.name))}}  # the same value again: content unchanged
+            return {"op": r.choice(["replace", "replace", "duplicate"]), "n": {"h": t, "path": []}, "ch": ch, "out": self.out()}
+
+        self.script += [ser, crash, deser, update]
+        self.w.stats.probes["script_started"] += 1
+
     def next_op(self) -> dict[str, Any]:
         self.n += 1
         w = self.w
         cfg = self.cfg
         r = self.r("sched")
         actor = r.choice(cfg["actors"])
+        if not getattr(self, "script", None) and cfg.get("scripts") and r.random() < 0.06 and any(h.kind == "node" for h in w.handles.values()):
+            self.start_script(actor)
+        if getattr(self, "script", None) and r.random() < 0.8:
+            op = self.script.pop(0)(actor)
+            if op is not None:
+                op["step"] = w.step_no + 1
+                op["actor"] = "persister"
+                op["script"] = True
+                return op
         nlive = len(w.last_reach)
         has_nodes = any(h.kind == "node" for h in w.handles.values())
         weights = dict(cfg["weights"])
@@ -1576,6 +1664,7 @@ def make_config(rseed: int, prop: str, tier: str, faults: bool) -> dict[str, Any
         "weights": weights,
         "formats": r.sample(list(FORMATS), r.choice([1, 2, 4])),
         "dyn_redefine": "Dyn" in leafs and r.random() < 0.6,
+        "scripts": prop in ("C14", "C04", "C03") and r.random() < 0.6,
         "trace_logging": r.random() < 0.1,
         "exotic_origins": exotic,
         "ser_faults": prop in ("C03", "C10", "C04"),
